@@ -1088,9 +1088,15 @@ pub mod __macro_support {
                 Ordering::Acquire,
             ) {
                 Ok(_) => {
+                    #[cfg(tokio_rs_tracing_verif)]
+                    tracing_core::callsite::__verif::yield_point("macro:won");
                     // Okay, we advanced the state, try to register the callsite.
                     crate::callsite::register(self.registration);
+                    #[cfg(tokio_rs_tracing_verif)]
+                    tracing_core::callsite::__verif::yield_point("macro:unlocked");
                     self.register.store(Self::REGISTERED, Ordering::Release);
+                    #[cfg(tokio_rs_tracing_verif)]
+                    tracing_core::callsite::__verif::yield_point("macro:done");
                 }
                 // Great, the callsite is already registered! Just load its
                 // previous cached interest.
